@@ -633,7 +633,13 @@ def rule_simplify_wiring(ctx: Ctx, rule: str = "simplify-wiring") -> None:
         problems = []
         if with_ctx:
             want_first = [("bin", "Sub", ("param", "self"), ("param", "context"))]
-            if not (len(a0) == 2 and a0[0] in want_first + [("param", "self")] and a0[1] == ("param", "context")):
+            first_ok = len(a0) == 2 and (a0[0] in want_first + [("param", "self")])
+            if len(a0) == 2 and not first_ok and a0[0][0] == "new" and a0[0][2]:
+                inner = a0[0][2][0]
+                # PolyhedralTermList(list_diff(self.terms, context.terms)) is the same list as self - context
+                if inner[0] == "call" and inner[1].endswith("list_diff") and list(inner[2]) == [("attr", ("param", "self"), "terms"), ("attr", ("param", "context"), "terms")]:
+                    first_ok = True
+            if not (first_ok and a0[1] == ("param", "context")):
                 problems.append("matrices are built from %s" % [show(x, 3) for x in a0])
         else:
             if not (len(a0) == 2 and a0[0] == ("param", "self") and a0[1][0] == "new" and not a0[1][2]):
@@ -737,15 +743,18 @@ def rule_polytope_roundtrip(ctx: Ctx, rule: str = "matrix-roundtrip") -> None:
         st = [e for e in p.events if e["kind"] == "store"]
         if len(st) == 1 and p.terminal == "return" and p.value[0] == "new" and p.value[1] == "PolyhedralTerm":
             tgt, val = st[0]["target"], st[0]["value"]
-            # variable_dict[var] = poly[i] with (i, var) from enumerate(variables)
+            # variable_dict[var] = poly[i] with (i, var) from enumerate(variables): same position on both sides
             if tgt[0] == "sub" and val[0] == "sub" and val[1] == ("param", "poly"):
                 key_v, idx_v = tgt[2], val[2]
-                if key_v[0] == "item" and idx_v[0] == "item" and key_v[1] == idx_v[1] and key_v[2] == 1 and idx_v[2] == 0:
-                    it = key_v[1]
-                    if it[0] == "iter" and it[1][0] == "call" and it[1][1] == "enumerate" and it[1][2] == (("param", "variables"),):
-                        args = list(p.value[2]) + [x for _k, x in p.value[3]]
-                        if len(args) == 2 and args[0] == tgt[1] and args[1] == ("param", "const"):
-                            okc = True
+                same_pos = (
+                    isinstance(key_v, tuple) and key_v[0] == "iter" and key_v[1] == ("param", "variables") and is_const(idx_v) and idx_v[1] == key_v[3]
+                ) or (
+                    isinstance(key_v, tuple) and key_v[0] == "sub" and key_v[1] == ("param", "variables") and key_v[2] == idx_v
+                )
+                if same_pos:
+                    args = list(p.value[2]) + [x for _k, x in p.value[3]]
+                    if len(args) == 2 and args[0] == tgt[1] and args[1] == ("param", "const"):
+                        okc = True
     (ctx.ok(rule, p2t.key, construct) if okc else ctx.violation(rule, p2t.key, construct, "unexpected shape", where=p2t.where))
     # polytope_to_termlist: row i with vector[i], same `variables`
     b = prog.func(PTL + "polytope_to_termlist")
@@ -910,6 +919,15 @@ def rule_transform(ctx: Ctx, rule: str = "transform") -> None:
                     if e["kind"] == "call" and e["callee"] == ".remove" and e["recv"] == ("attr", x, "terms") and e["args"] == (term,):
                         if x[0] == "mcall" and x[1] == "copy":
                             okh = True
+                # or: a new list built from the CURRENT terms with the term itself filtered out
+                if not okh and x[0] == "new" and x[2] and x[2][0][0] == "listcomp":
+                    lc = x[2][0]
+                    gens = lc[2]
+                    cur_terms = [e_["recv"] for e_ in p.events if e_["kind"] == "call" and e_["callee"] == "._never_"]
+                    over_current = all(mentions(g[0], lambda y: isinstance(y, tuple) and y[0] == "attr" and y[2] == "terms" and y[1][0] == "mcall" and y[1][1] == "copy") or mentions(g[0], lambda y: y == ("attr", ("mcall", "copy", ("param", "self"), (), ()), "terms")) for g in gens)
+                    filtered = any(g[1] and any(mentions(c_, lambda y: y == term) or mentions(c_, lambda y: isinstance(y, tuple) and y[0] == "item" and y[1][0] == "iter") for c_ in g[1]) for g in gens)
+                    if filtered and over_current:
+                        okh = True
             if not okh:
                 problems.append("the helper context %s is not context | (copy of the current terms minus the term itself)" % show(helpers, 4))
             if raised:
@@ -924,7 +942,7 @@ def rule_transform(ctx: Ctx, rule: str = "transform") -> None:
                 ctx.ok(rule, key, construct + " @ " + p.label()[:70])
         else:
             # non-touching term: unchanged copy
-            if val[0] == "mcall" and val[1] == "copy" and val[2][0] == "item":
+            if val[0] == "mcall" and val[1] == "copy" and val[2][0] in ("item", "iter"):
                 ctx.ok(rule, key, "_transform: a term without eliminated variables is copied unchanged @ " + p.label()[:60])
             else:
                 ctx.violation(rule, key, "_transform: a term without eliminated variables is copied unchanged", "it becomes %s" % show(val, 3), where=fi.where)
